@@ -347,6 +347,7 @@ class FakeKdqPartitioner:
     calls -- the real partitioner is verified on its own (C08)."""
 
     log = None  # set per driver
+    memo = None
 
     def __init__(self, count_ubound=200, cutpoint_proportion_lbound=0.25):
         self.count_ubound = count_ubound
@@ -363,11 +364,15 @@ class FakeKdqPartitioner:
         return [len(self.built)]
 
     def fill(self, data, tree_id, reset=False):
+        if reset:
+            self.fills = [f for f in self.fills if f[1] != tree_id]
         self.fills.append((data, tree_id, reset))
         FakeKdqPartitioner.log.append(("fill", data, tree_id, reset))
 
     def kl_distance(self, tree_id1, tree_id2):
-        r = cur().real("kl")
+        # a function of the tree (build data) and of everything filled since
+        args = (self.built, [(f[0], f[1]) for f in self.fills], tree_id1, tree_id2)
+        r = FakeKdqPartitioner.memo.get("kl", args, lambda: cur().real("kl"))
         FakeKdqPartitioner.log.append(("kl", tree_id1, tree_id2, r))
         return r
 
@@ -383,14 +388,19 @@ class KdqDriverBase(Driver):
         self.M = M
         self.log = []
         FakeKdqPartitioner.log = self.log
+        self.memo = stubs.Memo()
+        FakeKdqPartitioner.memo = self.memo
         self.stack.enter_context(rebind(M, KDQTreePartitioner=FakeKdqPartitioner))
         self.crit_calls = []
 
     def _patch(self, d):
         calls = self.crit_calls
 
-        def crit(ref_counts, sample_size):
-            r = cur().real("crit")
+        memo = self.memo
+
+        def crit(ref_counts, sample_size, _d=d):
+            # a function of the reference tree (and of the seed schedule, shared by twins)
+            r = memo.get("crit", (list(ref_counts), sample_size, _d._kdqtree.built), lambda: cur().real("crit"))
             calls.append((list(ref_counts), sample_size, r))
             return r
 
@@ -457,6 +467,7 @@ class HDMDriver(Driver):
         self.M = M
         self.div_calls = []
         self.eps0_calls = []
+        self.memo = stubs.Memo()
 
     def make(self):
         from menelaus.data_drift import HDDDM, CDBD
@@ -464,9 +475,17 @@ class HDMDriver(Driver):
         c = self.ctx
         calls = self.div_calls
 
+        memo = self.memo
+
+        def mk(name):
+            def make():
+                r = cur().real(name)
+                cur().assume_unchecked(r >= 0)
+                return r
+            return make
+
         def divergence(ref_density, test_density):
-            r = cur().real("dist")
-            cur().assume_unchecked(r >= 0)
+            r = memo.get("dist", (ref_density, test_density), mk("dist"))
             calls.append((ref_density, test_density, r))
             return r
 
@@ -479,13 +498,11 @@ class HDMDriver(Driver):
         e0 = self.eps0_calls
 
         def est(reference, num_subsets, mins, maxes):
-            r = cur().real("eps0")
-            cur().assume_unchecked(r >= 0)
+            r = memo.get("eps0", (reference, num_subsets, mins, maxes), mk("eps0"))
             e0.append((len(reference), num_subsets, r))
             return r
 
         d._estimate_initial_epsilon = est
-        d._build_histograms = lambda dataset, mins, maxes: [("hist", id(dataset), f) for f in range(d._input_col_dim)]
         return d
 
     def fresh_batch(self, tag, rows=None):
@@ -493,8 +510,9 @@ class HDMDriver(Driver):
         n = rows or self.cfg.get("rows", 4)
         # concrete placeholder rows: every numeric effect of the data reaches the
         # decision logic through the (symbolic) distances
-        k = len(self.inputs) + 1
-        return np.array([[float(k * 10 + r + j) for j in range(f)] for r in range(n)])
+        self._nbatch = getattr(self, "_nbatch", 0) + 1
+        rs = np.random.RandomState(1000 + self._nbatch)
+        return np.round(rs.rand(n, f) * 8, 3)
 
     def fresh_input(self, i):
         return self.fresh_batch(f"b{i}")
@@ -505,19 +523,21 @@ class HDMDriver(Driver):
 
 class FakeNNSP:
     log = None
+    memo = None
 
     def __init__(self, k):
         self.k = k
 
     def build(self, s1, s2):
         FakeNNSP.log.append(("build", s1, s2))
-        self.nnps_matrix = ("M", len(FakeNNSP.log))
-        self.v1 = ("v1", len(FakeNNSP.log))
-        self.v2 = ("v2", len(FakeNNSP.log))
+        key = stubs.keyof((s1, s2, self.k))
+        self.nnps_matrix = ("M", key)
+        self.v1 = ("v1", key)
+        self.v2 = ("v2", key)
 
     @staticmethod
     def compute_nnps_distance(M, v1, v2):
-        r = cur().real("nnps")
+        r = FakeNNSP.memo.get("nnps", (M, v1, v2), lambda: cur().real("nnps"))
         FakeNNSP.log.append(("dist", M, v1, v2, r))
         return r
 
@@ -534,6 +554,8 @@ class NNDVIDriver(Driver):
         self.M = M
         self.log = []
         FakeNNSP.log = self.log
+        self.memo = stubs.Memo()
+        FakeNNSP.memo = self.memo
         self.stack.enter_context(rebind(M, NNSpacePartitioner=FakeNNSP))
         self.thr_calls = []
 
@@ -544,8 +566,10 @@ class NNDVIDriver(Driver):
         d = self.M.NNDVI(**self.params)
         calls = self.thr_calls
 
+        memo = self.memo
+
         def thr(M_nnps, v_ref, v_test, sampling_times, alpha):
-            r = cur().real("theta")
+            r = memo.get("theta", (M_nnps, v_ref, v_test, sampling_times, alpha), lambda: cur().real("theta"))
             calls.append((M_nnps, v_ref, v_test, sampling_times, alpha, r))
             return r
 
